@@ -71,6 +71,7 @@ type Exec struct {
 	assertsSeen map[string]int
 	params map[string]int
 	nCtx int
+	hmacApps map[string][]*Term
 	curPos string
 	randLog [][]*Term
 	retryAttempts int
